@@ -65,7 +65,20 @@ PLAN7 = {
  'W7G-m1': ('G', ['C20']), 'W7G-m2': ('G', ['C20']),
  'W7H-m1': ('H', ['C03']), 'W7H-m2': ('H', ['C03']),
 }
+PLAN8 = {
+ 'W8A-m1': ('A', ['C10']), 'W8A-m2': ('A', ['C10']),
+ 'W8B-m1': ('B', ['C10']), 'W8B-m2': ('B', ['C10']),
+ 'W8C-m1': ('C', ['C20']), 'W8C-m2': ('C', ['C20']),
+ 'W8D-m1': ('D', ['C20']), 'W8D-m2': ('D', ['C20']),
+ 'W8E-m1': ('E', ['C02']), 'W8E-m2': ('E', ['C02']),
+ 'W8F-m1': ('F', ['C04']), 'W8F-m2': ('F', ['C04']),
+ 'W8G-m1': ('G', ['C06']), 'W8G-m2': ('G', ['C06']),
+ 'W8H-m1': ('H', ['C01']), 'W8H-m2': ('H', ['C01']),
+}
 SRC = {}
+for k, (d, checks) in PLAN8.items():
+    PLAN[k] = checks
+    SRC[k] = f'/tmp/mut8-{d}/out/{k.split("-")[1]}'
 for k, (d, checks) in PLAN7.items():
     PLAN[k] = checks
     SRC[k] = f'/tmp/mut7-{d}/out/{k.split("-")[1]}'
